@@ -110,7 +110,7 @@ pub struct Batch {
 /// Run indices 0..runs over `jobs` threads. `g(run, &mut Stats)` generates and executes run `run`.
 /// On a violation at index r every index < r is still executed and the smallest failing index is
 /// reported, so the outcome does not depend on thread timing.
-pub fn run_batch<G>(runs: u64, jobs: usize, wall_cap: Duration, hang_limit: Duration, g: G) -> Batch
+pub fn run_batch<G>(runs: u64, jobs: usize, wall_cap: Duration, hang_limit: Duration, on_hang: &(dyn Fn(u64) + Sync), g: G) -> Batch
 where
     G: Fn(u64, &mut Stats) -> RunResult + Sync,
 {
@@ -183,7 +183,8 @@ where
         if let Some(r) = hung {
             // cannot kill the stuck thread: report and leave the process from here
             println!("HANG run={} (no progress for {:?})", r, hang_limit);
-            crate::report::hang_exit(r);
+            on_hang(r);
+            crate::report::hang_exit(r, None);
         }
     });
     let (stats, found, executed) = results.into_inner().unwrap();
